@@ -193,6 +193,10 @@ def step (s : State) (toks : List String) : State × String :=
     match s.names.find a with
     | some k => (s, s!"s={(getRec s.recs k).display (fun x => toString x.val)}")
     | none => (s, "bad-ref")
+  | "debug" :: a :: _ =>
+    match s.names.find a with
+    | some k => (s, "dbg ## " ++ debugRec s.w (getRec s.recs k))
+    | none => (s, "bad-ref")
   | "clone" :: name :: a :: _ =>
     match s.names.find a with
     | some k => stepClone s name k
